@@ -32,6 +32,7 @@ def values(small, allt):
 def level_tasks(vals_full, vals_small):
     out = [G.GA(x=1)]
     out += [G.GD(p=v) for v in vals_full]
+    out += [G.GE(p=v, z=1) for v in vals_small]
     out += [G.GB(one=v, many=w) for v in vals_small for w in vals_small]
     out += [G.GC(a=v, b=w) for v in vals_small for w in vals_small]
     return out
@@ -44,7 +45,7 @@ def reps(tasks):
         cur = out.get(type(t))
         if cur is None or (not ref_edges_of(cur) and ref_edges_of(t)):
             out[type(t)] = t
-    return [out[k] for k in (G.GA, G.GB, G.GC, G.GD) if k in out]
+    return [out[k] for k in (G.GA, G.GB, G.GC, G.GD, G.GE) if k in out]
 
 
 def inputs(tier: str):
